@@ -65,6 +65,14 @@ def gen_cases(tier, seed):
         {"fam": "composite", "shape": [4], "ctx": 0, "parts": [{"fam": "qr", "shape": [4], "cache": True, "nh": 2},
                                                                {"fam": "svd", "shape": [4], "cache": True, "nh": 2, "idinit": True}]},
     ]
+    # learned temperatures inside containers, moved away from the constructor value before saving
+    for ni, cfg in enumerate([
+            {"fam": "composite", "shape": [3], "ctx": 0, "parts": [{"fam": "sigmoid", "shape": [3], "temp": 1.0, "learn": True}]},
+            {"fam": "inverse", "inner": {"fam": "sigmoid", "shape": [2], "temp": 3.0, "learn": True}},
+            {"fam": "sigmoid", "shape": [2, 2, 2], "temp": 0.5, "learn": True}]):
+        for ef in (False, True):
+            cases.append({"kind": "transform", "cfg": cfg, "hist": "perturbed", "seed": env.subseed(seed, "c15t", ni), "eval_first": ef,
+                          "world": "f64", "cost": 1})
     for ni, cfg in enumerate(nested):
         for hi, h in enumerate(HIST):
             for ef in (False, True):
@@ -152,6 +160,14 @@ def run_case(case):
                     if loss.requires_grad:
                         loss.backward()
                         opt.step()
+        elif hist == "perturbed":
+            g_ = torch.Generator().manual_seed(seed + 3)
+            with torch.no_grad():
+                for n_, p_ in A.named_parameters():
+                    if n_.split(".")[-1] == "temperature":
+                        p_.mul_(0.6)
+                    else:
+                        p_.add_(0.05 * torch.randn(p_.shape, generator=g_).to(p_.dtype))
         elif hist == "data_init":
             A.train()
             with torch.no_grad():
